@@ -288,24 +288,30 @@ void trace_dim() {
     verif::outputs("n1_", n1, S);
     verif::outputs("n2_", n2, S);
   }
+  // value dependent branches (regularisation of 1/(vp_i - vp_j) below eps): traced in concolic mode with
+  // well separated eigenvalues, |vp_i - vp_j| > eps, once for each of the six orderings of the eigenvalues
+  // (the path conditions are emitted as `_path`). Unit `deig` (vp0 > vp1 > vp2) is the one the theorems
+  // are about; checks/C06.py verifies that the five others produce the same expressions.
   {
-    // value dependent branches (regularisation of 1/(vp_i - vp_j) below eps): traced in concolic mode
-    // with well separated eigenvalues, |vp_i - vp_j| > eps; the path condition is emitted as `_path`
-    Unit u(d + "deig");
-    verif::ctx().concolic = true;
-    tvector<3u, Sym> vp;
-    vp[0] = verif::scalar_input("l0", 1.75);
-    vp[1] = verif::scalar_input("l1", 0.5);
-    vp[2] = verif::scalar_input("l2", -1.25);
-    rotation_matrix<Sym> m;
-    verif::fill_inputs2(m, "m", 3, 3);
-    const Sym eps = verif::scalar_input("eps", 1.e-3);
-    st2tost2<N, Sym> dn0, dn1, dn2;
-    stensor<N, Sym>::computeEigenTensorsDerivatives(dn0, dn1, dn2, vp, m, eps);
-    verif::ctx().concolic = false;
-    verif::outputs2("dn0_", dn0, S, S);
-    verif::outputs2("dn1_", dn1, S, S);
-    verif::outputs2("dn2_", dn2, S, S);
+    const double lv[6][3] = {{1.75, 0.5, -1.25}, {1.75, -1.25, 0.5}, {0.5, 1.75, -1.25},
+                             {0.5, -1.25, 1.75}, {-1.25, 1.75, 0.5}, {-1.25, 0.5, 1.75}};
+    for (int k = 0; k != 6; ++k) {
+      Unit u(d + (k == 0 ? std::string("deig") : "deig_p" + std::to_string(k)));
+      verif::ctx().concolic = true;
+      tvector<3u, Sym> vp;
+      vp[0] = verif::scalar_input("l0", lv[k][0]);
+      vp[1] = verif::scalar_input("l1", lv[k][1]);
+      vp[2] = verif::scalar_input("l2", lv[k][2]);
+      rotation_matrix<Sym> m;
+      verif::fill_inputs2(m, "m", 3, 3);
+      const Sym eps = verif::scalar_input("eps", 1.e-3);
+      st2tost2<N, Sym> dn0, dn1, dn2;
+      stensor<N, Sym>::computeEigenTensorsDerivatives(dn0, dn1, dn2, vp, m, eps);
+      verif::ctx().concolic = false;
+      verif::outputs2("dn0_", dn0, S, S);
+      verif::outputs2("dn1_", dn1, S, S);
+      verif::outputs2("dn2_", dn2, S, S);
+    }
   }
 }
 
